@@ -72,10 +72,16 @@ def histories(tier, seed):
                     step["set"] = {}
             hist.append(step)
         if not hist[-1]["set"]:
-            # a history ending in "back to the defaults" only says something if the state before
-            # was away from them: make sure an effective setting was changed first
-            hist[0]["set"]["nonorthogonal_xpoint_poloidal_spacing_length"] = draw(st.sampled_from([0.02, 0.2]))
-            hist[0]["set"]["nonorthogonal_target_all_poloidal_spacing_length"] = draw(st.sampled_from([0.2, 1.0]))
+            # a history ending in "back to the defaults" only says something if the state just before
+            # was away from them: the step before the last changes two effective settings and is not
+            # itself a reset; the spacing method stays untouched (its history dependence is a listed
+            # finding and would mask anything else in the same history)
+            for s_ in hist:
+                s_["set"].pop("nonorthogonal_spacing_method", None)
+            prev = hist[-2]
+            prev.pop("reset", None)
+            prev["set"]["nonorthogonal_xpoint_poloidal_spacing_length"] = draw(st.sampled_from([0.02, 0.2]))
+            prev["set"]["nonorthogonal_target_all_poloidal_spacing_length"] = draw(st.sampled_from([0.2, 1.0]))
         other = draw(st.integers(0, 4)) == 0 and bool(hist[-1]["set"])
         if other:
             ok = draw(st.sampled_from(sorted(OTHER)))
